@@ -44,6 +44,7 @@ pub struct ExecStats {
     pub dated_contracts_near_year_boundary: u64,
     pub option_contracts_checked: u64,
     pub option_strikes_with_3_or_more_decimals: u64,
+    pub window_messages: u64,
 }
 
 pub struct ExecResult {
@@ -429,6 +430,60 @@ pub fn exec_case(case: &Case, env: &Env) -> ExecResult {
     if let Some(e) = run.pre.iter().find_map(|o| if let Out::Event(e) = o { Some(e) } else { None }) {
         // Bitfinex snapshots buffered during validation are not trade messages ("te")
         res.fired.push(Fired { signature: "buffered_snapshot_produced_event", detail: format!("{e:?}"), probe: None });
+    }
+    // 5. subscription-validation window (venues that acknowledge every subscription separately): the same
+    // payloads arrive BETWEEN the first and the last acknowledgement, are buffered by the real validator and
+    // replayed by the init path; the replay must yield exactly what the live path yields for them.
+    if let (Some(sock), true, true) = (&env.socket, env.use_socket, matches!(def.venue, Venue::Okx | Venue::KrakenTrade | Venue::KrakenSpread) && case.instruments.len() >= 2 && run.panic.is_none()) {
+        let ack = |k: usize, tok: &str| -> String {
+            match def.venue {
+                Venue::Okx => serde_json::json!({"event": "subscribe", "arg": {"channel": "trades", "instId": tok}}).to_string(),
+                _ => serde_json::json!({"channelID": 10_000 + k, "channelName": if def.venue == Venue::KrakenTrade { "trade" } else { "spread" }, "event": "subscriptionStatus", "pair": tok, "status": "subscribed", "subscription": {"name": if def.venue == Venue::KrakenTrade { "trade" } else { "spread" }}}).to_string(),
+            }
+        };
+        // payloads that could be mistaken for a subscription response stay out of the window
+        let usable: Vec<usize> = (0..texts.len()).filter(|i| !texts[*i].contains("\"event\"") && run.per_msg.get(*i).is_some()).collect();
+        if !usable.is_empty() {
+            let mut messages = vec![ack(0, &echoed[0])];
+            messages.extend(usable.iter().map(|i| texts[*i].clone()));
+            messages.extend(echoed.iter().enumerate().skip(1).map(|(k, t)| ack(k, t)));
+            let remapped = match plumb::map_pair(def.name, case.sub_type, &case.instruments) {
+                Ok(m) => m.map,
+                Err(e) => harness!(e),
+            };
+            match plumb::window_validate(def.name, sock, remapped, &messages) {
+                ValidateOutcome::Ok(map2, buf) => {
+                    let n_buf = buf.len();
+                    let replay = match plumb::stream_pair(def.name, &env.errs, map2, &snaps, buf, &[]) {
+                        Ok(r) => r,
+                        Err(e) => harness!(e),
+                    };
+                    // payloads that do not parse are reported as errors live and only logged on the replay path: the
+                    // statement is about events and unidentifiable-market errors, so parse errors are set aside
+                    let want: Vec<String> = usable.iter().flat_map(|i| run.per_msg[*i].iter().map(|o| format!("{o:?}"))).filter(|o| !o.starts_with("Parse(")).collect();
+                    let got: Vec<String> = replay.pre.iter().map(|o| format!("{o:?}")).filter(|o| !o.starts_with("Parse(")).collect();
+                    res.stats.window_messages += usable.len() as u64;
+                    if n_buf != usable.len() {
+                        res.fired.push(Fired { signature: "validator_did_not_buffer_every_message_of_the_window", detail: format!("[{}] {} payloads arrived between the first and the last subscription acknowledgement, {n_buf} were handed on", def.name, usable.len()), probe: None });
+                        return res;
+                    }
+                    if got != want {
+                        let first = got.iter().zip(want.iter()).position(|(a, b)| a != b).unwrap_or(got.len().min(want.len()));
+                        res.fired.push(Fired {
+                            signature: "messages_buffered_during_subscription_validation_replayed_differently",
+                            detail: format!("[{} / {:?}] {} payloads arrived between the first and the last subscription acknowledgement; replayed through the init path they yield {} outputs, live they yield {}; first difference at output #{first}: replay {:?} vs live {:?}", def.name, case.sub_type, usable.len(), got.len(), want.len(), got.get(first), want.get(first)),
+                            probe: None,
+                        });
+                        return res;
+                    }
+                }
+                ValidateOutcome::Rejected(e) => {
+                    res.fired.push(Fired { signature: "subscription_validation_failed_although_every_subscription_was_acknowledged", detail: format!("[{}] {e}", def.name), probe: None });
+                    return res;
+                }
+                ValidateOutcome::Harness(e) => harness!(e),
+            }
+        }
     }
     let kind_of_key: BTreeMap<Key, &'static str> = case.instruments.iter().map(|i| (i.key, i.kind.class())).collect();
     for (idx, probe) in case.probes.iter().enumerate() {
